@@ -65,7 +65,7 @@ def parseSyCase (line : String) : Option SyCase :=
     let i : SyncIn := {
       setName := "web"
       paused := (paused == "1")
-      selectorOk := (selOk == "1")
+      selectorOk := (selOk != "0")
       view := v
       stored := st
       collisionCount := (if cc == "nil" then none else some cc.toInt!)
